@@ -19,7 +19,7 @@
 (*   Readers    point + range reads at a revision      range.go, scanner.go  *)
 (*   Compactor  floor record + record-by-record scan   compact.go, scanner.go*)
 (***************************************************************************)
-EXTENDS KBDefs, TLC, Json, SequencesExt
+EXTENDS Scanner, TLC, Json, SequencesExt
 
 CONSTANTS
     Keys,                 \* key numbers, e.g. 1..2
@@ -92,7 +92,7 @@ vars    == <<idx, ver, hver, floor, dealt, committed, slot, wpc, wloc, wops, wi,
              chan, cache, retryQ, rpc, rloc, faults, subs, xpc, xloc, xreq, outClosed,
              delivered, emitted, kinit, acked, maxRet, rdpc, rdloc, rdreq, reads, cpc, cloc, creq, cn, hist>>
 
-MaxRev == Base + OpsPer * Cardinality(Writers) * 2 + 4   \* every attempt and every repair gets one
+MaxRev == Base + OpsPer * Cardinality(Writers) * 2 + 4 + FaultBudget   \* every attempt and every repair gets one
 
 -----------------------------------------------------------------------------
 \* Initial history of one key
@@ -153,7 +153,9 @@ Init ==
 
 -----------------------------------------------------------------------------
 \* history (generator configs only)
-H(p, a, g) == hist' = IF GenHist THEN Append(hist, [p |-> p, a |-> a, g |-> g]) ELSE hist
+H(p, a, g) == hist' = IF GenHist THEN Append(hist, [p |-> p, a |-> a, g |-> g, f |-> "", x |-> 0]) ELSE hist
+\* f: the engine answer chosen for a commit ("ok", "err", "unka", "unkn"); x: an integer argument
+HF(p, a, g, f, x) == hist' = IF GenHist THEN Append(hist, [p |-> p, a |-> a, g |-> g, f |-> f, x |-> x]) ELSE hist
 
 Op(w) == wops[w][wi[w]]
 
@@ -219,7 +221,7 @@ CreateDeal(w) ==
 
 \* outcome of a conditional commit on key k whose condition is cond
 \*   sets idx/ver/hver, wloc[w].res, next pc
-CondCommit(w, cond, newidx, newver, pcOk, pcCas, extra) ==
+CondCommit(w, act, cond, newidx, newver, pcOk, pcCas, extra) ==
     LET k == Op(w).key IN
     IF cond
     THEN \E a \in Answers :
@@ -230,15 +232,17 @@ CondCommit(w, cond, newidx, newver, pcOk, pcCas, extra) ==
                   l1  == DiffUpdate(wloc, k, ix2, vs2) IN
               wloc' = [l1 EXCEPT ![w] = [@ EXCEPT !.res = ResOf(a), !.engDone = TRUE]]
            /\ wpc' = [wpc EXCEPT ![w] = pcOk]
+           /\ HF(w, act, "kv.commit", a, 0)
     ELSE /\ UNCHANGED <<store, faults>>
          /\ wloc' = [wloc EXCEPT ![w] = extra]
          /\ wpc' = [wpc EXCEPT ![w] = pcCas]
+         /\ HF(w, act, "kv.commit", "ok", 0)
 
 \* put-if-absent of the index + put of the version                      gate: kv.commit
 CreatePine(w) ==
     /\ wpc[w] = "c_pine"
     /\ LET k == Op(w).key  r == wloc[w].rev IN
-       CondCommit(w, idx[k] = NoIdx,
+       CondCommit(w, "CreatePine", idx[k] = NoIdx,
                   [rev |-> r, del |-> FALSE], [rev |-> r, val |-> Op(w).val],
                   "notify",
                   IF ConflictCarriesValue
@@ -249,7 +253,6 @@ CreatePine(w) ==
                         THEN [wloc[w] EXCEPT !.old = idx[k]]
                         ELSE [wloc[w] EXCEPT !.old = idx[k], !.res = "cas", !.engDone = TRUE])
                   ELSE wloc[w])
-    /\ H(w, "CreatePine", "kv.commit")
     /\ UNCHANGED <<floor, dealt, committed, slot, wops, wi, seqvars, chan, cache, rvars, xvars, acked, maxRet, emitted, kinit, rdvars, cvars>>
 
 \* engines whose conflict carries no value: read the index               gate: kv.get
@@ -270,22 +273,20 @@ CreateGet(w) ==
 CreatePine2(w) ==
     /\ wpc[w] = "c_pine2"
     /\ LET k == Op(w).key  r == wloc[w].rev IN
-       CondCommit(w, idx[k] = NoIdx,
+       CondCommit(w, "CreatePine2", idx[k] = NoIdx,
                   [rev |-> r, del |-> FALSE], [rev |-> r, val |-> Op(w).val],
                   "notify", "notify",
                   [wloc[w] EXCEPT !.res = "cas", !.engDone = TRUE])
-    /\ H(w, "CreatePine2", "kv.commit")
     /\ UNCHANGED <<floor, dealt, committed, slot, wops, wi, seqvars, chan, cache, rvars, xvars, acked, maxRet, emitted, kinit, rdvars, cvars>>
 
 \* compare-and-swap over the tombstoned index that was observed            gate: kv.commit
 CreateCas(w) ==
     /\ wpc[w] = "c_cas"
     /\ LET k == Op(w).key  r == wloc[w].rev IN
-       CondCommit(w, idx[k] = wloc[w].old,
+       CondCommit(w, "CreateCas", idx[k] = wloc[w].old,
                   [rev |-> r, del |-> FALSE], [rev |-> r, val |-> Op(w).val],
                   "notify", "notify",
                   [wloc[w] EXCEPT !.res = "cas", !.engDone = TRUE])
-    /\ H(w, "CreateCas", "kv.commit")
     /\ UNCHANGED <<floor, dealt, committed, slot, wops, wi, seqvars, chan, cache, rvars, xvars, acked, maxRet, emitted, kinit, rdvars, cvars>>
 
 \* update with expectation > 0: allocate; refuse expectations from the future   gate: deal
@@ -304,11 +305,10 @@ UpdateDeal(w) ==
 UpdateCas(w) ==
     /\ wpc[w] = "u_cas"
     /\ LET k == Op(w).key  r == wloc[w].rev IN
-       CondCommit(w, idx[k] = [rev |-> Op(w).exp, del |-> FALSE],
+       CondCommit(w, "UpdateCas", idx[k] = [rev |-> Op(w).exp, del |-> FALSE],
                   [rev |-> r, del |-> FALSE], [rev |-> r, val |-> Op(w).val],
                   "notify", "notify",
                   [wloc[w] EXCEPT !.res = "cas", !.engDone = TRUE])
-    /\ H(w, "UpdateCas", "kv.commit")
     /\ UNCHANGED <<floor, dealt, committed, slot, wops, wi, seqvars, chan, cache, rvars, xvars, acked, maxRet, emitted, kinit, rdvars, cvars>>
 
 \* delete: read the newest version                                          gate: kv.iter
@@ -340,11 +340,10 @@ DeleteDeal(w) ==
 DeleteCas(w) ==
     /\ wpc[w] = "d_cas"
     /\ LET k == Op(w).key  r == wloc[w].rev IN
-       CondCommit(w, idx[k] = [rev |-> wloc[w].mod, del |-> FALSE],
+       CondCommit(w, "DeleteCas", idx[k] = [rev |-> wloc[w].mod, del |-> FALSE],
                   [rev |-> r, del |-> TRUE], [rev |-> r, val |-> TOMB],
                   "notify", "notify",
                   [wloc[w] EXCEPT !.res = "cas", !.engDone = TRUE])
-    /\ H(w, "DeleteCas", "kv.commit")
     /\ UNCHANGED <<floor, dealt, committed, slot, wops, wi, seqvars, chan, cache, rvars, xvars, acked, maxRet, emitted, kinit, rdvars, cvars>>
 
 \* the event a write attempt reports
@@ -484,10 +483,11 @@ RetryCommit ==
                          THEN DiffUpdate(wloc, k, [rev |-> r, del |-> tomb], ver[k] \cup {[rev |-> r, val |-> rloc.val]})
                          ELSE wloc
               /\ rloc' = [rloc EXCEPT !.val = ResOf(a)]
+              /\ HF("retry", "RetryCommit", "kv.commit", a, 0)
        ELSE /\ UNCHANGED <<store, faults, wloc>>
             /\ rloc' = [rloc EXCEPT !.val = "cas"]
+            /\ HF("retry", "RetryCommit", "kv.commit", "ok", 0)
     /\ rpc' = "notify"
-    /\ H("retry", "RetryCommit", "kv.commit")
     /\ UNCHANGED <<floor, dealt, committed, slot, wpc, wops, wi, seqvars, chan, cache, retryQ, xvars, acked, maxRet, emitted, kinit, rdvars, cvars>>
 
 \* report the repair revision (valid iff the rewrite succeeded), pop              gate: notify
@@ -496,7 +496,9 @@ RetryNotify ==
     /\ LET e == rloc.ev IN
        slot' = [slot EXCEPT ![rloc.rev] =
                   [e EXCEPT !.rev = rloc.rev, !.valid = rloc.val = "ok", !.unc = rloc.val = "unk"]]
-    /\ retryQ' = Tail(retryQ)
+    \* unless the rewrite succeeded or lost its compare, the operation is still unresolved: it stays queued
+    \* (an uncertain rewrite is queued as well, under its own revision, by the sequencer)
+    /\ retryQ' = IF rloc.val \in {"err", "unk"} THEN retryQ ELSE Tail(retryQ)
     /\ rpc' = "idle"
     /\ H("retry", "RetryNotify", "notify")
     /\ UNCHANGED <<store, floor, dealt, committed, wvars, seqvars, chan, cache, rloc, faults, xvars, acked, maxRet, emitted, kinit, rdvars, cvars>>
@@ -613,6 +615,25 @@ CloseOut(w) ==
 WatcherNext(w) == ListFirst(w) \/ Subscribe(w) \/ CacheRead(w) \/ Decide(w) \/ Process(w) \/ CloseOut(w)
 
 -----------------------------------------------------------------------------
+\* COMPACTOR (backend.Compact): one request = clamp, raise the record, scan and delete. Atomic here;
+\* the record-by-record behaviour incl. failures and crashes is explored in KBSeq.tla / Scanner.tla.
+KeyLo == MinS(Keys)
+KeyHi == MaxS(Keys)
+CompactReq(c) ==
+    /\ cn[c] < MaxCompacts
+    /\ \E req \in CompactRevs :
+         LET R0 == IF req = 0 \/ req > committed THEN committed ELSE req
+             R  == IF retryQ # << >> /\ Head(retryQ).rev - 1 < R0 THEN Head(retryQ).rev - 1 ELSE R0
+             run == WorkerRun(Records(idx, ver, KeyLo, KeyHi + 1), R, 0, TRUE, 0, {})
+             st == ApplyDeletes(idx, ver, run.dels, [i \in 1..Len(run.dels) |-> "ok"], 1, Len(run.dels), 0) IN
+         /\ idx' = st.idx /\ ver' = st.ver
+         /\ floor' = IF R > floor THEN R ELSE floor
+         /\ creq' = [creq EXCEPT ![c] = R]
+         /\ HF(c, "CompactReq", "start", "", req)
+    /\ cn' = [cn EXCEPT ![c] = @ + 1]
+    /\ UNCHANGED <<hver, dealt, committed, slot, wvars, seqvars, chan, cache, rvars, faults, xvars, acked, maxRet, emitted, kinit, rdvars, cpc, cloc>>
+
+-----------------------------------------------------------------------------
 WriterBusy == \E w \in Writers : wpc[w] # "idle"
 Next ==
     IF AtomicWrites /\ WriterBusy
@@ -622,6 +643,7 @@ Next ==
          \/ RetryNext
          \/ (Watchers # {} /\ HubDeliver)
          \/ \E w \in Watchers : WatcherNext(w)
+         \/ \E c \in Compactors : CompactReq(c)
 
 Fairness == /\ WF_vars(SeqNext) /\ WF_vars(RetryNext)
             /\ \A w \in Writers : WF_vars(WriterNext(w))
@@ -631,7 +653,7 @@ Spec == Init /\ [][Next]_vars /\ Fairness
 \* PROPERTIES
 
 Quiescent == WritersDone /\ SeqIdle /\ retryQ = << >> /\ rpc = "idle"
-AllDone == /\ Quiescent /\ chan = << >>
+AllDone == /\ Quiescent /\ (Watchers = {} \/ chan = << >>)    \* (nobody consumes chan without watchers)
            /\ \A w \in Watchers : /\ xpc[w] \in {"running", "refused", "closed"}
                                   /\ ~subs[w].hasHand /\ subs[w].buf = << >>
                                   /\ (subs[w].closed => xpc[w] # "running")
@@ -643,6 +665,7 @@ AckedOk == {a \in acked : a.res = "ok"}
 
 \* the predecessor of revision r in the full history of key k
 Pred(k, r) == NewestLE(hver[k], r - 1)
+PredLive(k, r) == NewestLE({v \in hver[k] : v.val # TOMB}, r - 1)
 ChainOk(k, r, type, exp) ==
     LET p == Pred(k, r) IN
     CASE type = "create" -> ~IsLive(p)
@@ -692,12 +715,20 @@ Snap0 == [k \in Keys |-> LET v == NewestLE(hver[k], Base) IN IF IsLive(v) THEN v
 SnapNow == [k \in Keys |-> LET v == Latest(hver[k]) IN IF IsLive(v) THEN v ELSE NoVer]
 Converged == Quiescent => Applies(emitted, Snap0) = SnapNow
 
+\* compaction never advances to an unresolved (unknown-outcome, not yet repaired) revision
+CompactClamp == \A i \in 1..Len(retryQ) : floor < retryQ[i].rev
+\* and therefore never removes what the repair has to read: the newest version of a queued key
+RepairStillPossible == \A i \in 1..Len(retryQ) : LET e == retryQ[i] IN
+                          (\E v \in hver[e.key] : v.rev = e.rev) => (\E v \in ver[e.key] : v.rev = e.rev)
+
 \* every emitted event describes a stored version
 EventsMatchWrites ==
     \A i \in 1..Len(emitted) :
         LET e == emitted[i] IN
         /\ \E v \in hver[e.key] : v.rev = e.rev /\ (e.type = EvDelete <=> v.val = TOMB) /\ (e.type # EvDelete => v.val = e.val)
-        /\ e.type = EvDelete => (LET p == Pred(e.key, e.rev) IN p.val = e.val)
+        \* a delete event carries the last LIVE value before it (a repaired delete follows its own,
+        \* unacknowledged tombstone)
+        /\ e.type = EvDelete => (LET p == PredLive(e.key, e.rev) IN p.val = e.val /\ p.rev = e.kvrev)
         /\ i > 1 => emitted[i-1].rev < e.rev
 AckedEmitted == Quiescent => \A a \in AckedOk : \E i \in 1..Len(emitted) : emitted[i].rev = a.rev
 
@@ -723,7 +754,7 @@ ListWatchAgree ==
 
 -----------------------------------------------------------------------------
 \* generator support: one JSON object per complete behaviour
-Final == [idx |-> idx, ver |-> ver, committed |-> committed, dealt |-> dealt, acked |-> acked,
+Final == [idx |-> idx, ver |-> ver, floor |-> floor, committed |-> committed, dealt |-> dealt, acked |-> acked,
           delivered |-> delivered, xres |-> [w \in Watchers |-> xloc[w].res], closed |-> outClosed,
           retryQ |-> Len(retryQ), emitted |-> emitted]
 Behaviour == [kinit |-> kinit, wops |-> wops, xreq |-> xreq, steps |-> hist, final |-> Final]
